@@ -42,6 +42,8 @@ static inline int VT_ctl32(u32 x) { return x < 0x10000u || x >= 0xffff0000u; }
 static inline int VT_atom(u64 x) { return x >= ATOM_A0 && x < ATOM_END; }
 static inline int VT_prod(u64 x) { return (x & PROD_MASK) == 0; }
 static inline u64 VT_sx32(u32 x) { return (u64)(s64)(s32)x; }
+#define TAG_SHIFT 20
+static inline int VT_tag(u64 x) { return x >= (1ULL << TAG_SHIFT) && x < (1ULL << (TAG_SHIFT + 10)) && (x & ((1ULL << TAG_SHIFT) - 1)) == 0; }
 /* undef / poison lanes: an arbitrary value of the product class (keeps dead lanes well-typed; if it reaches an output
    or a control position the postcondition / the control typing fails) */
 static inline u64 VT_undef_64(void) { return nondet_u64() & ~(u64)PROD_MASK; }
@@ -60,6 +62,11 @@ static inline u64 VT_mul(u64 x, u64 y, int w) {
     return ((VERIF_W[idx / 64] >> (idx % 64)) & 1) << PROD_SHIFT;
   }
 #endif
+#ifdef VERIF_TAGS
+  /* TAGS mode (multilinear code): every element of operand i carries the concrete tag TAG(i) = 2^(20+i); a value's tag is the set
+     of operands it is a product of.  Products need disjoint tag sets (no operand twice => degree <= 1 in every operand). */
+  if (VT_tag(x) && VT_tag(y)) { if ((x & y) == 0) return x | y; return VT_bad(); }
+#endif
 #ifdef VERIF_SQ
   /* atoms='AA' (quadratic forms: norm): the square of A-atom p is the table bit W[p]; a product of two *different*
      A-atoms is outside the typing (poison) */
@@ -72,6 +79,10 @@ static inline u64 VT_mul(u64 x, u64 y, int w) {
 }
 /* additions see symbolic product-range accumulators: straight-line, the verdict goes into the ghost flag */
 static inline u64 VT_add(u64 x, u64 y, int sub) {
+#ifdef VERIF_TAGS
+  /* sums need equal tag sets (homogeneous) or a zero summand; the sum keeps the tag */
+  if (VT_tag(x) || VT_tag(y)) { if (x == y || y == 0) return x; if (x == 0) return y; return VT_bad(); }
+#endif
   u64 r = sub ? x - y : x + y;
   int ok = (VT_prod(x) && VT_prod(y)) || (VT_ctl(x) && VT_ctl(y) && VT_ctl(r)) || y == 0 || (x == 0 && !sub);
   if (!ok) return VT_bad();
@@ -86,11 +97,17 @@ static inline u32 VT_mul32(u32 x, u32 y) {
   if (x == 0 || y == 0) return 0;
   if (x == 1) return y;
   if (y == 1) return x;
+#ifdef VERIF_TAGS
+  if (VT_tag(x) && VT_tag(y)) return (u32)VT_mul(x, y, 32);
+#endif
   if (VT_ctl32(x) && VT_ctl32(y)) { u64 r = VT_sx32(x) * VT_sx32(y); if (!VT_ctl(r)) return (u32)VT_bad(); return (u32)r; }
   if (VT_atom(x) && VT_atom(y)) return (u32)VT_mul(x, y, 32);
   return (u32)VT_bad();
 }
 static inline u32 VT_add32(u32 x, u32 y, int sub) {
+#ifdef VERIF_TAGS
+  if (VT_tag(x) || VT_tag(y)) return (u32)VT_add(x, y, sub);
+#endif
   u32 r = sub ? x - y : x + y;
   int ok = (VT_prod(x) && VT_prod(y)) || (VT_ctl32(x) && VT_ctl32(y) && VT_ctl32(r)) || y == 0 || (x == 0 && !sub);
   if (!ok) return (u32)VT_bad();
@@ -221,8 +238,9 @@ static inline u32 ILSHR_32(u32 x, u32 n) {
    once to the specified radicand", not that it is correctly rounded */
 u32 __CPROVER_uninterpreted_atoms_sqrt32(u32);
 u64 __CPROVER_uninterpreted_atoms_sqrt64(u64);
-static inline u32 FSQRT_32(u32 x) { if (!VT_prod(x)) return (u32)VT_bad(); return __CPROVER_uninterpreted_atoms_sqrt32(x); }
-static inline u64 FSQRT_64(u64 x) { if (!VT_prod(x)) return VT_bad(); return __CPROVER_uninterpreted_atoms_sqrt64(x); }
+/* (the opaque value is kept in the product class -- low PROD_SHIFT bits cleared -- so that it can be told from poison) */
+static inline u32 FSQRT_32(u32 x) { if (!VT_prod(x)) return (u32)VT_bad(); return __CPROVER_uninterpreted_atoms_sqrt32(x) & ~(u32)PROD_MASK; }
+static inline u64 FSQRT_64(u64 x) { if (!VT_prod(x)) return VT_bad(); return __CPROVER_uninterpreted_atoms_sqrt64(x) & ~(u64)PROD_MASK; }
 #else
 #define FSQRT_32(x) ((u32)VT_bad())
 #define FSQRT_64(x) VT_bad()
